@@ -498,6 +498,11 @@ func expiredUnderContention(r *lib.Run) {
 			wg.Add(1)
 			go func(g int) {
 				defer wg.Done()
+				defer func() {
+					if p := recover(); p != nil {
+						r.Violation(map[string]string{"kind": "panic", "phase": "expired-under-contention"}, fmt.Sprintf("the cache panicked under concurrent use: %v", p), nil)
+					}
+				}()
 				<-start
 				gots[g], errs[g] = c.Get(ctx, u)
 			}(g)
@@ -521,6 +526,11 @@ func expiredUnderContention(r *lib.Run) {
 			wg2.Add(1)
 			go func(g int) {
 				defer wg2.Done()
+				defer func() {
+					if p := recover(); p != nil {
+						r.Violation(map[string]string{"kind": "panic", "phase": "expired-under-contention"}, fmt.Sprintf("the cache panicked under concurrent use: %v", p), nil)
+					}
+				}()
 				<-start2
 				for j := 0; j < 3; j++ {
 					c.Get(ctx, u)
@@ -531,6 +541,11 @@ func expiredUnderContention(r *lib.Run) {
 		var serr error
 		go func() {
 			defer wg2.Done()
+			defer func() {
+				if p := recover(); p != nil {
+					r.Violation(map[string]string{"kind": "panic", "phase": "expired-under-contention"}, fmt.Sprintf("the cache panicked under concurrent use: %v", p), nil)
+				}
+			}()
 			<-start2
 			serr = c.Set(ctx, u, fresh)
 		}()
